@@ -3,6 +3,7 @@
 package main
 
 import (
+	"bytes"
 	"io"
 	"io/ioutil"
 	"net/http"
@@ -18,17 +19,16 @@ import (
 // delivered the way a network delivers them: in short reads of seeded sizes,
 // the last bytes possibly together with io.EOF.
 //
-// If BIP39_VERIF_NOLEN is set, responses carry no length (ContentLength -1, no
+// Responses announce their length, as a static file server does, unless
+// BIP39_VERIF_NOLEN is set: then they carry none (ContentLength -1, no
 // Content-Length header), as a compressed or chunked delivery does.
 func init() {
 	if dir := os.Getenv("BIP39_VERIF_UPSTREAM"); dir != "" {
 		var rt http.RoundTripper = http.NewFileTransport(http.Dir(dir))
+		rt = verifLenTransport{rt: rt, announce: os.Getenv("BIP39_VERIF_NOLEN") == ""}
 		if s := os.Getenv("BIP39_VERIF_FRAG"); s != "" {
 			seed, _ := strconv.ParseUint(s, 10, 64)
 			rt = &verifFragTransport{rt: rt, seed: seed}
-		}
-		if os.Getenv("BIP39_VERIF_NOLEN") != "" {
-			rt = verifNoLenTransport{rt}
 		}
 		http.DefaultTransport = rt
 	}
@@ -86,13 +86,31 @@ func (b *verifFragBody) Read(p []byte) (int, error) {
 
 func (b *verifFragBody) Close() error { return nil }
 
-type verifNoLenTransport struct{ rt http.RoundTripper }
+// verifLenTransport makes responses announce their length (resp.ContentLength and the
+// Content-Length header), as a static file server does - the in-process file transport
+// itself never does - or, with announce false, guarantees that they do not.
+type verifLenTransport struct {
+	rt       http.RoundTripper
+	announce bool
+}
 
-func (t verifNoLenTransport) RoundTrip(req *http.Request) (*http.Response, error) {
+func (t verifLenTransport) RoundTrip(req *http.Request) (*http.Response, error) {
 	resp, err := t.rt.RoundTrip(req)
-	if err == nil && resp != nil {
+	if err != nil || resp == nil {
+		return resp, err
+	}
+	if !t.announce {
 		resp.ContentLength = -1
 		resp.Header.Del("Content-Length")
+		return resp, nil
 	}
-	return resp, err
+	data, err := ioutil.ReadAll(resp.Body)
+	resp.Body.Close()
+	if err != nil {
+		return nil, err
+	}
+	resp.Body = ioutil.NopCloser(bytes.NewReader(data))
+	resp.ContentLength = int64(len(data))
+	resp.Header.Set("Content-Length", strconv.Itoa(len(data)))
+	return resp, nil
 }
